@@ -351,6 +351,8 @@ def run_callbacks(ctx):
     if not ENABLED:
         ctx.cov['user_callbacks'] = 'off'
         return
+    import time
+    t0 = time.time()
     cases = [(a, cm.bound_copies(a, cfg), t, f, tag) for a, cfg, t, f, tag in gen(ctx)]
     impl = impl_many([c[:4] for c in cases])
     n_multi = 0
@@ -373,7 +375,7 @@ def run_callbacks(ctx):
         if r[0] == 'err' or (r[0] == 'ok' and r[1] and len(a) >= 2):
             ctx.nontrivial(('cb7', _key(cfg, t, f), a))
     ctx.cov['user_callbacks'] = {'cases': len(cases), 'text_callbacks': sorted(TEXT_CBS), 'field_callbacks': sorted(FIELD_CBS),
-                                 'outputs_with_a_line_break': n_multi}
+                                 'outputs_with_a_line_break': n_multi, 'wall_s': round(time.time() - t0, 1)}
     for a, cfg, t, f, tag in cases[-2:]:
         ctx.sample({'component': 'callbacks', 'abbr': a, 'config': cfg, 'text_cb': t, 'field_cb': f})
     ctx.cov['rule'] = ctx.cov.get('rule', '') + (
